@@ -49,7 +49,9 @@ type c13Variant struct {
 	kind, name string
 	expect     string
 	brace      int
-	raw        bool // lines replace the whole "{ ... }" body
+	raw        bool   // lines replace the whole "{ ... }" body
+	pre        bool   // uses the file-scope declarations of the preamble (fsv_<salt> ...), which c13Build then emits
+	needs      string // name of a variant that must appear LATER in the file (appended by c13Build if missing)
 	lines      func(i int) []string
 }
 
@@ -109,6 +111,23 @@ func c13Variants() []c13Variant {
 		v("nocompile", "unclosed-func-literal", "FAIL", +1, func(i int) []string { return []string{"f := func( {", "@assert f == nil"} }),
 		v("nocompile", "extra-close-brace", "FAIL", -1, func(i int) []string { return []string{"y := 2", "}", "@assert y == 2"} }),
 		v("nocompile", "missing-open-brace", "FAIL", -1, func(i int) []string { return []string{"x := 1", "if x == 1", "    x = 2 }", "@assert x == 2"} }),
+
+		// file-scope declarations whose ONLY uses are inside a test that does not compile (the uses come before the syntax error)
+		{kind: "nocompile", name: "uses-filescope-then-syntax-error", expect: "FAIL", pre: true, lines: func(i int) []string {
+			n := i / 100
+			return []string{fmt.Sprintf("q := fsv_%d + fsw_%d + fsc_%d + fsf_%d(1)", n, n, n, n), fmt.Sprintf("r := fst_%d{a: q}", n), "fmt.Println(q, r)", "x := := 3"}
+		}},
+		{kind: "nocompile", name: "uses-filescope-then-unknown-stmt", expect: "FAIL", pre: true, lines: func(i int) []string {
+			n := i / 100
+			return []string{fmt.Sprintf("@assert fsf_%d(fsv_%d) == 11", n, n), fmt.Sprintf("fsw_%d = fsc_%d", n, n), fmt.Sprintf("r := fst_%d{a: 1}", n), "fmt.Println(r)", "pring \"typo after the uses\""}
+		}},
+		// a test that declares a type / func / const and then fails to compile; a LATER test declares the same names
+		{kind: "nocompile", name: "declares-then-syntax-error", expect: "FAIL", needs: "redeclares-same-names", lines: func(i int) []string {
+			return []string{"type dupT struct {", "    a int", "}", "func dupF(a int) int {", "    return a", "}", "const dupC = 3", "y := dupF(dupC)", "fmt.Println(y, dupT{a: 1})", "pring \"typo after the declarations\""}
+		}},
+		{kind: "pass", name: "redeclares-same-names", expect: "PASS", lines: func(i int) []string {
+			return []string{"type dupT struct {", "    b string", "}", "func dupF(a int) int {", "    return a * 2", "}", "const dupC = 4", "v := dupT{b: \"x\"}", "@assert dupF(dupC) == 8", "@assert v.b == \"x\""}
+		}},
 
 		v("opentry", "error-in-catch", "FAIL", 0, func(i int) []string {
 			return []string{"try {", "    z := 1", "    @assert z == 2", "} catch (e) {", "    k := []int{1}", "    q := 7", "    fmt.Println(e, k[q])", "}"}
@@ -173,6 +192,40 @@ func c13Build(chosen []c13Variant, salt int) c13File {
 		f     c13File
 		lines []string
 	)
+
+	// a variant that needs a later partner gets it appended if the PRNG did not put one after it
+	for i := 0; i < len(chosen); i++ {
+		if chosen[i].needs == "" {
+			continue
+		}
+
+		found := false
+
+		for _, w := range chosen[i+1:] {
+			if w.name == chosen[i].needs {
+				found = true
+			}
+		}
+
+		if !found {
+			for _, w := range c13Variants() {
+				if w.name == chosen[i].needs {
+					chosen = append(append([]c13Variant{}, chosen...), w)
+				}
+			}
+		}
+	}
+
+	// file-scope preamble (before the first @test) when some block uses it; its only uses are in non-compiling tests
+	for _, v := range chosen {
+		if v.pre {
+			n := salt
+			lines = append(lines, fmt.Sprintf("fsv_%d := 10", n), fmt.Sprintf("var fsw_%d int = 2", n), fmt.Sprintf("const fsc_%d = 7", n),
+				fmt.Sprintf("type fst_%d struct {", n), "    a int", "}", fmt.Sprintf("func fsf_%d(a int) int {", n), "    return a + 1", "}", "")
+
+			break
+		}
+	}
 
 	for i, v := range chosen {
 		name := fmt.Sprintf("b%02d_%s_%s_%d", i, v.kind, strings.ReplaceAll(v.name, "-", ""), salt)
@@ -404,7 +457,7 @@ func c13Judge(f *c13File, run c13Run) (findings []c13Finding, nStatus, nErr int)
 
 func TestC13(t *testing.T) {
 	r := vh.New("C13", "isolation")
-	r.Rule = "files of 3-12 @test blocks drawn by PRNG from 33 templates of 7 kinds (pass, assert, runtime, infunc, nocompile, opentry, fail) run by the real `ego test`; " +
+	r.Rule = "files of 3-12 @test blocks drawn by PRNG from 37 templates of 7 kinds (some files start with file-scope var/const/type/func declarations whose only uses are inside tests that do not compile; some tests declare a type/func/const before their syntax error and a later test declares the same names) (pass, assert, runtime, infunc, nocompile, opentry, fail) run by the real `ego test`; " +
 		"distinct = distinct sequence of (kind, variant); non-trivial = at least one failing block followed by at least one more block before any @fail."
 	r.Assume("TESTING.md: each @test up to the next @test is compiled and guarded independently; a failure prints a (FAIL) status line followed by the error; only @fail stops the run")
 	r.Assume("the outcome of each template alone is what its construction says; this is checked by running every template in a file of its own (calibration)")
@@ -544,6 +597,8 @@ func TestC13(t *testing.T) {
 		}
 	}
 
+	jobs = append(jobs, job{"probe-filescope-used-only-by-broken-tests", "probe", c13Build([]c13Variant{pass, byName["nocompile/uses-filescope-then-syntax-error"], byName["pass/loop"], byName["nocompile/uses-filescope-then-unknown-stmt"], byName["assert/plain"], pass}, 778)})
+	jobs = append(jobs, job{"probe-redeclare-after-broken-test", "probe", c13Build([]c13Variant{pass, byName["nocompile/declares-then-syntax-error"], byName["runtime/index"], byName["pass/redeclares-same-names"], byName["nocompile/declares-then-syntax-error"], byName["pass/redeclares-same-names"], pass}, 779)})
 	jobs = append(jobs, job{"probe-runtime-status", "probe", c13Build([]c13Variant{pass, byName["assert/plain"], byName["runtime/index"], byName["infunc/named"], byName["opentry/error-in-catch"], pass}, 777)})
 	probeNames = append(probeNames, "status-line-missing:runtime-fail")
 
